@@ -806,6 +806,12 @@ func (fc *fileCtx) inlineAt(s ast.Stmt, call *ast.CallExpr, callee *types.Func, 
 	} else if _, isSel := call.Fun.(*ast.SelectorExpr); isSel {
 		return "qualified call"
 	}
+	qual := func(p *types.Package) string {
+		if p == fc.pkg.Types {
+			return ""
+		}
+		return fc.importName(p.Path(), p.Name())
+	}
 	pi := 0
 	for _, fld := range fd.Type.Params.List {
 		names := fld.Names
@@ -813,19 +819,19 @@ func (fc *fileCtx) inlineAt(s ast.Stmt, call *ast.CallExpr, callee *types.Func, 
 			names = []*ast.Ident{{Name: "_"}}
 		}
 		for _, nm := range names {
-			binds = append(binds, binding{nm.Name, fc.text(call.Args[pi])})
+			ax := fc.text(call.Args[pi])
+			// an untyped constant (or nil) takes the parameter's type, not its default type
+			// (`math.MaxUint64` bound to a uint64 parameter would overflow int)
+			if tv, ok := fc.pkg.TypesInfo.Types[call.Args[pi]]; ok && (tv.Value != nil || tv.IsNil()) {
+				ax = "(" + types.TypeString(sig.Params().At(pi).Type(), qual) + ")(" + ax + ")"
+			}
+			binds = append(binds, binding{nm.Name, ax})
 			pi++
 		}
 	}
 	// --- results
 	type resv struct{ name, typ string }
 	var results []resv
-	qual := func(p *types.Package) string {
-		if p == fc.pkg.Types {
-			return ""
-		}
-		return fc.importName(p.Path(), p.Name())
-	}
 	ri := 0
 	if fd.Type.Results != nil {
 		for _, fld := range fd.Type.Results.List {
